@@ -304,6 +304,16 @@ func ruleUsedTable(c *chk.Ctx, d *dispatchModel) {
 		}
 	}
 
+	// the ids of one batch are looked up and reserved in one critical section: the check/assign
+	// function never lets go of the server lock (a stop that lands between two reservations
+	// would cancel the first and leave the second reserved, and running, on a stopped server)
+	if fi := c.F.Funcs[d.checkAssign]; fi != nil {
+		lock := ownerLock(c, "server")
+		c.Check(!fi.Sum.Touches[lock], "PAIR.reserve", d.checkAssign, "one critical section for the whole batch", d.checkAssign.Pos(), "nothing reachable from the check/assign function locks or unlocks "+lock.String(), "the check/assign function (or something it calls) releases "+lock.String()+" between the reservations of a batch's members: a stop or a cancellation landing there sees only part of the batch — the rest is reserved afterwards, is never cancelled when the server stops, and its ids stay reserved")
+	} else {
+		c.Undecided("PAIR.reserve", d.checkAssign, "one critical section for the whole batch", d.checkAssign.Pos(), "no lock summary for the check/assign function")
+	}
+
 	// D3: reserve ⇒ release at reply. Extract the "not executed" predicate and the delivery guard.
 	ruleReserveRelease(c, d)
 
@@ -331,7 +341,7 @@ func ruleUsedTable(c *chk.Ctx, d *dispatchModel) {
 	if nDel == 0 {
 		c.Fail("WHO.used", nil, "release site", 0, "ids are never released")
 	}
-	c.Floor("WHO.used", 4, "reservation site, count, ≥2 release sites")
+	c.Floor("WHO.used", 3, "reservation site, count, ≥1 release site")
 }
 
 func ruleReserveRelease(c *chk.Ctx, d *dispatchModel) {
